@@ -119,14 +119,14 @@ CHECKS = {
     ),
     "C05": dict(
         engine="rtc", category="exploration", design_ref="DESIGN.md §4, §6 C05",
-        technique='run-time contracts on the real functions over an exhaustively enumerated bounded scope (bounded stand-in: NumPy-heavy bodies are outside the VC generator)',
-        text="Relational clauses on real cube outputs: every re-encoding of every dimension (each value in the extent, incl. never-occurring ones, built directly with the spec layer) leaves every aggregate's missing set and values unchanged, and again after a renormalising shift_common(); explicit identical interacting_shape.",
+        technique='deductive part: the real marginal differencing executed on symbolic cell contents under every tuple of common values (z3; bounded in shape) and structural obligations on the corner initialisation; run-time contracts relating the real cubes under every encoding over an enumerated bounded scope',
+        text="Proved for all cell contents (188 obligations): differencing returns the same per-cell value under every tuple of common values of a shape; the grand-total corner of every ffunc reads no common value and no entry. Bounded: Relational clauses on real cube outputs: every re-encoding of every dimension (each value in the extent, incl. never-occurring ones, built directly with the spec layer) leaves every aggregate's missing set and values unchanged, and again after a renormalising shift_common(); explicit identical interacting_shape.",
         note="Bounded; the oracle is the property's own (the same cube under another encoding). Counts of empty / rare / most-frequent common cells are reported and must be non-zero.",
     ),
     "C13": dict(
         engine="rtc", category="exploration", design_ref="DESIGN.md §4, §6 C13",
-        technique='run-time contracts on the real functions over an exhaustively enumerated bounded scope (bounded stand-in: NumPy-heavy bodies are outside the VC generator)',
-        text='On both cube types and every aggregate: result.shape == extra extents (dimension order, then axis order) + category extents (+ fact columns); every block result[j1..jm] equals the aggregate over the 1-D slices at those positions; contracts on ccube.product / xcube.product (each combination exactly once, documented order, data is the slice at its coordinates).',
+        technique='deductive part: abstract execution of the real iindex.slices1d recursion per contract case (induction over the axes) and structural obligations on product() / the task body; run-time contracts relating every block of real cube outputs to the cube of the 1-D slices over an enumerated bounded scope',
+        text='Proved for all indexes (11 obligations from the working-tree AST of slices1d): every in-range coordinate tuple is yielded exactly once, labelled in axis order, with the content at exactly those coordinates, the common value and shape (N,); product() is the product in dimension order of the slices1d() pairs and the task body selects the block by the concatenated coordinates as leading indices (structural). Bounded: On both cube types and every aggregate: result.shape == extra extents (dimension order, then axis order) + category extents (+ fact columns); every block result[j1..jm] equals the aggregate over the 1-D slices at those positions; contracts on ccube.product / xcube.product (each combination exactly once, documented order, data is the slice at its coordinates).',
         note="Bounded; extra extents 1-4 pairwise different (and equal-extent lists so that a transposition stays in bounds); the oracle is the property's own (cube of the 1-D slices, itself under C02/C03's contracts).",
     ),
 }
